@@ -32,6 +32,26 @@ Theorem C09_effects_complete_on_return :
 Proof. intros tbl pf fuel. exact (emit_effects_complete _ (script_good tbl pf fuel)). Qed.
 Print Assumptions C09_effects_complete_on_return.
 
+(* "... and exactly once if its connection stayed connected and unblocked throughout": for ARBITRARY slot bodies R that obey the
+   library's contract (good: every script does, SigInv.script_good) and leave the entry (i, k) as it is whenever they run
+   (keeps_conn: they may disconnect / block OTHER connections of the same signal, emit other signals, run passes ...): an emission
+   that returns normally has invoked the direct connection k (In) and has not invoked it twice (NoDup) *)
+Theorem C09_exactly_once_if_kept :
+  forall R, good R -> forall i k c, keeps_conn R i k c ->
+  forall w s args m w',
+    winv w -> lookup (w_sigs w) s = Some (Some i) -> get_impl w i = Some m -> i_emitting m = false ->
+    g_get (i_conns m) k = Some c -> c_blocked c = false -> (forall e, c_kind c <> KDeferred e) ->
+    sig_emit R w s args = (w', None) ->
+    exists l, w_trace w' = l ++ w_trace w /\ In k (dkeys i l) /\ NoDup (dkeys i l).
+Proof. exact emit_exactly_once_if_kept. Qed.
+Print Assumptions C09_exactly_once_if_kept.
+
+(* its hypotheses are met by bodies that act on the emitting signal: slots that each disconnect another connection k2 *)
+Theorem C09_exactly_once_premises_met :
+  forall i k2 k c, k2 <> k -> good (disc_other i k2) /\ keeps_conn (disc_other i k2) i k c.
+Proof. intros i k2 k c Hne. split; [apply disc_other_good|apply disc_other_keeps; exact Hne]. Qed.
+Print Assumptions C09_exactly_once_premises_met.
+
 Theorem C09_nothing_pending_between_calls :
   forall tbl pass_fuel fuel ops i m k c,
     get_impl (run tbl pass_fuel fuel ops) i = Some m -> g_get (i_conns m) k = Some c -> c_tbd c = false.
